@@ -659,9 +659,11 @@ def _variable_usage_tables(ck, repo):
         else:
             want = strict
         got = set()
+        from ..pathtab import eager_env
         for tr in uv.cfg.simulate(lambda n, env: evaluate(n.ast, env, val, atoms)):
             rv = _ret_class(tr)
-            got.add(rv if isinstance(rv, str) else canon(rv, tr.env))
+            # resolved with what each name held when it was read (`t = t.gql_type` is the unwrapped type afterwards)
+            got.add(rv if isinstance(rv, str) else unparse(eager_env(tr)["__sub__"](rv)))
         ck.ob(f"IsVariableUsageAllowed table {val}", got == {want}, u, u.node, construct="table:usage:" + "".join(str(int(x)) for x in val.values()),
               detail=f"got {sorted(got)}, specification {want}" + atoms.note())
     t = repo.func(rel, "_validate_type_compatibility")
